@@ -145,7 +145,11 @@ def table(ctx):
 def vocabulary(ctx):
     """Opcodes that can reach the term DAG: known to ir_block, real EVM/solc items, not splitting/terminal, not pure stack ops."""
     rows, info, own, _ = table(ctx)
-    excluded = set(info["split_block"]) | set(info["end_block"]) | {"JUMPDEST", "STOP", "SUICIDE", "ASSERTFAIL", "CALLCODE"}
+    # what never reaches the term DAG: the splitting / block-ending sets the repository itself declares (read from its constants and
+    # from the splitter's terminate_block), and JUMPDEST.  Nothing is excluded by assumption: an opcode with an effect that is in none
+    # of these sets *is* part of the term vocabulary — that is what C01.e reports.
+    mi_env = ModuleInterp(ctx).module_env(GO)
+    excluded = set(info["split_block"]) | set(info["end_block"]) | set(mi_env.get("terminate_block") or ()) | {"JUMPDEST"}
     voc = []
     for name, row in rows.items():
         if name in excluded or name in STACK_OPS:
